@@ -18,7 +18,11 @@ pub fn run(case: &Value, ctx: &Ctx) -> Outcome {
     let divisor = parse_lf(&case["divisor"]);
     let id = case.to_string().bytes().fold(11u64, |h, b| h.wrapping_mul(257).wrapping_add(b as u64));
     let mut rng = StdRng::seed_from_u64(ctx.seed ^ id);
-    let x: Vec<f64> = (0..n).map(|_| 1.0 + rng.gen::<f64>() * 1e3).collect();
+    // magnitude classes of the input: ordinary counts, entries far below machine epsilon (a rescaled spectrum), and large ones;
+    // every operator of the pipeline is linear, so nothing but rounding may depend on the magnitude
+    let scale: f64 = match id % 3 { 0 => 1.0, 1 => 2f64.powi(-60), _ => 2f64.powi(40) };
+    out.tag(format!("scale:{}", if scale == 1.0 { "1" } else if scale < 1.0 { "2^-60" } else { "2^40" }));
+    let x: Vec<f64> = (0..n).map(|_| (1.0 + rng.gen::<f64>() * 1e3) * scale).collect();
     let nopts = (!marg.is_empty()) as usize + (!proj.is_empty()) as usize + mask as usize + norm as usize;
     out.nontrivial = Some(format!("{shape:?}/{marg:?}/{proj:?}/{mask}/{norm}"));
     out.tag(format!("options:{nopts}"));
@@ -124,7 +128,9 @@ pub fn run(case: &Value, ctx: &Ctx) -> Outcome {
         Ok((gs, gv)) => {
             out.check(gs == sym.shape, || "view/combined/shape".into(), || json!({"got": gs, "want": sym.shape}));
             let tol = if proj.is_empty() { 1e-12 } else { 1e-9 };
-            out.check(gv.len() == want.len() && gv.iter().zip(&want).all(|(g, w)| close(*g, *w, tol)), || "view/combined/values".into(),
+            // purely relative comparison (an absolute floor would make every tiny entry "close")
+            let rel = |g: f64, w: f64| (g.is_nan() && w.is_nan()) || g == w || (g - w).abs() <= tol * g.abs().max(w.abs());
+            out.check(gv.len() == want.len() && gv.iter().zip(&want).all(|(g, w)| if scale == 1.0 { close(*g, *w, tol) } else { rel(*g, *w) }), || "view/combined/values".into(),
                 || json!({"args": args, "got": gv, "want": want, "applied": case["applied"]}));
             if norm && div != 0.0 {
                 out.check(close(gv.iter().sum::<f64>(), 1.0, 1e-12), || "view/normalize/sum".into(), || json!({"sum": gv.iter().sum::<f64>()}));
@@ -151,6 +157,9 @@ pub fn run(case: &Value, ctx: &Ctx) -> Outcome {
     }
     // text output at two precisions: to the printed precision
     for p in [6usize, 12] {
+        if scale < 1.0 && !norm {
+            break; // entries of 1e-16 print as zeros at these precisions: nothing to compare
+        }
         let mut a3: Vec<String> = args[..args.len() - 2].to_vec();
         a3.extend(["--precision".into(), p.to_string()]);
         let a3r: Vec<&str> = a3.iter().map(|s| s.as_str()).collect();
